@@ -189,9 +189,9 @@ class Store:
         m.msgs.append(msg)
         return m, msg
 
-    def deliver(self, name: str, cid: str, unseen: bool, idate=None) -> Msg:
+    def deliver(self, name: str, cid: str, unseen: bool, idate=None, flags=()) -> Msg:
         m = self.mb(name)
-        msg = Msg(m.uidnext, cid, set() if unseen else {"\\Seen"}, idate)
+        msg = Msg(m.uidnext, cid, (set() if unseen else {"\\Seen"}) | set(flags), idate)
         m.uidnext += 1
         m.msgs.append(msg)
         return msg
